@@ -9,7 +9,13 @@
 
   Histories: any list of kernel events (spawn / exit / reap / tick / **clock step**) and psutil calls
   (Process(pid) at any point, is_running, signals, setters, ppid, **boot_time()**, create_time, ==,
-  hash, process_iter).  Only hypothesis: the published boot time is never 0 (`b0 ≠ 0`, `HistOK`).
+  hash, process_iter, oneshot() entry/exit, str).  Only hypothesis: the published boot time is never 0
+  (`b0 ≠ 0`, `HistOK`).
+
+  Objects: `St.ps.objs` holds every `Process` object the history produced — those built by
+  `Process(pid)` AND those built and yielded by `process_iter()` (which appends them and returns their
+  indices); every theorem that says "for any object i of the state" therefore speaks about both kinds, and
+  about pairs mixing them.
 -/
 import PsutilModel.Proofs.C02
 import PsutilModel.Model.C02Gen
@@ -159,6 +165,105 @@ theorem C02_answers_stable (b0 : Nat) (hb0 : b0 ≠ 0) (h : List Ev) (hh : HistO
     ea.pid, ea.ident, eb.pid, eb.ident]
   exact ⟨rfl, rfl⟩
 
+/-! ## Objects handed out by `process_iter()` -/
+
+/-- **C02_iter_keeps_objects.** In any state, `process_iter()` does not touch the kernel nor any existing
+    object — cached or not, evicted from the cache or not: same PID, same identity, same sticky flags. -/
+theorem C02_iter_keeps_objects (s : St) (j : Nat) (o : PObj) (ho : s.ps.objs[j]? = some o) :
+    (step cfg s (.c .processIter)).1.ps.objs[j]? = some o
+      ∧ (step cfg s (.c .processIter)).1.kern = s.kern := by
+  rw [step_processIter]
+  obtain ⟨t, ht⟩ := (processIter_shape cfg s.kern s.ps).1
+  exact ⟨by simp only [ht]; exact getElem?_append_of_some ho t, rfl⟩
+
+/-- **C02_iter_ghost_meaning.** In any state, every handle `(pid, i)` yielded by `process_iter()` is either an
+    entry of the cache as it was (the very same object index), or a new object appended behind the
+    existing ones whose `ghost` is the start stamp of the incarnation owning `pid` at that instant, with
+    no sticky flag; and the new cache is exactly what was yielded. -/
+theorem C02_iter_ghost_meaning (s : St) (l : List (Nat × Nat))
+    (h : (step cfg s (.c .processIter)).2 = .procs l) :
+    (step cfg s (.c .processIter)).1.ps.pmap = l
+    ∧ ∀ e ∈ l, e ∈ s.ps.pmap ∨
+        (s.ps.objs.length ≤ e.2 ∧ ∃ o, (step cfg s (.c .processIter)).1.ps.objs[e.2]? = some o ∧ o.pid = e.1
+          ∧ s.kern.owner e.1 = some o.ghost ∧ o.gone = false ∧ o.reused = false) := by
+  rw [step_processIter] at h ⊢
+  simp only [Out.procs.injEq] at h
+  subst h
+  obtain ⟨_, hpm, hy⟩ := processIter_shape cfg s.kern s.ps
+  exact ⟨hpm, hy⟩
+
+/-- **C02_iter_handles_valid.** After any history, every handle `(pid, i)` yielded by `process_iter()` names an
+    object of the resulting state, and that object's PID is `pid` — so all theorems of this file apply to
+    it under index `i`. -/
+theorem C02_iter_handles_valid (b0 : Nat) (hb0 : b0 ≠ 0) (h : List Ev) (hh : HistOK h) (l : List (Nat × Nat))
+    (hl : (step cfg (run cfg (St.init b0) h) (.c .processIter)).2 = .procs l) :
+    ∀ e ∈ l, ∃ o, (step cfg (run cfg (St.init b0) h) (.c .processIter)).1.ps.objs[e.2]? = some o ∧ o.pid = e.1 := by
+  have hinv := run_inv cfg_good h _ hh (init_inv cfg.clk hb0)
+  generalize run cfg (St.init b0) h = s at *
+  have hinv' := step_inv cfg_good s (.c .processIter) trivial hinv
+  have hpm := (C02_iter_ghost_meaning s l hl).1
+  intro e he
+  exact hinv'.ps.pmap e (hpm ▸ he)
+
+/-- **C02_oneshot_identity.** Entering or leaving a `oneshot()` block on any object changes nothing the
+    properties speak about (no state, no answer). -/
+theorem C02_oneshot_identity (s : St) (i : Nat) (enter : Bool) :
+    step cfg s (.c (.oneshot i enter)) = (s, .unit) := rfl
+
+/-! ## The status word of `str(p)` / `repr(p)` -/
+
+/-- **C02_status_terminated_sound.** After any history, when `str(p)` says "terminated" (with or without
+    "+ PID reused"), the object's incarnation is indeed no longer in the process table. -/
+theorem C02_status_terminated_sound (b0 : Nat) (hb0 : b0 ≠ 0) (h : List Ev) (hh : HistOK h) (i : Nat) (o : PObj)
+    (ho : (run cfg (St.init b0) h).ps.objs[i]? = some o)
+    (hw : (step cfg (run cfg (St.init b0) h) (.c (.status i))).2 = .status .terminated
+        ∨ (step cfg (run cfg (St.init b0) h) (.c (.status i))).2 = .status .reusedTerminated) :
+    ¬ Listed (run cfg (St.init b0) h).kern o := by
+  have hinv := run_inv cfg_good h _ hh (init_inv cfg.clk hb0)
+  generalize run cfg (St.init b0) h = s at *
+  obtain ⟨B, _, hok⟩ := hinv.ps.objs o (List.mem_of_getElem? ho)
+  rw [step_status_out cfg s ho] at hw
+  simp only [Out.status.injEq] at hw
+  exact (statusWord_spec hinv.kern hok).1 hw
+
+/-- **C02_status_listed.** After any history, while the object's own incarnation is in the table `str(p)`
+    shows that incarnation's state (zombie or not) — never "terminated". -/
+theorem C02_status_listed (b0 : Nat) (hb0 : b0 ≠ 0) (h : List Ev) (hh : HistOK h) (i : Nat) (o : PObj)
+    (ho : (run cfg (St.init b0) h).ps.objs[i]? = some o)
+    (hl : Listed (run cfg (St.init b0) h).kern o) :
+    ∃ x, (run cfg (St.init b0) h).kern.find o.pid = some x ∧ x.start = o.ghost
+      ∧ ownZombie (run cfg (St.init b0) h).kern o = some x.zombie
+      ∧ (step cfg (run cfg (St.init b0) h) (.c (.status i))).2 = .status (if x.zombie then .zombie else .alive) := by
+  have hinv := run_inv cfg_good h _ hh (init_inv cfg.clk hb0)
+  generalize run cfg (St.init b0) h = s at *
+  obtain ⟨B, _, hok⟩ := hinv.ps.objs o (List.mem_of_getElem? ho)
+  obtain ⟨x, hf, hs, hw⟩ := (statusWord_spec hinv.kern hok).2 hl
+  exact ⟨x, hf, hs, ownZombie_of_find hinv.kern hf hs, by rw [step_status_out cfg s ho, hw]⟩
+
+/-- the full statement one would like: "terminated" is shown exactly when the incarnation is gone -/
+def StatusTerminatedIffNotListed_Full (c : Cfg) : Prop :=
+  ∀ (b0 : Nat), b0 ≠ 0 → ∀ (h : List Ev), HistOK h → ∀ (i : Nat) (o : PObj),
+    (run c (St.init b0) h).ps.objs[i]? = some o →
+    (((step c (run c (St.init b0) h) (.c (.status i))).2 = .status .terminated
+        ∨ (step c (run c (St.init b0) h) (.c (.status i))).2 = .status .reusedTerminated)
+      ↔ ¬ Listed (run c (St.init b0) h).kern o)
+
+/-- a handle whose process ended and whose PID was recycled, nobody having asked `is_running()` since -/
+def witnessStaleStr : List Ev := [.k (.spawn 8), .c (.newObj 8), .k (.reap 8), .k (.spawn 8)]
+
+/-- **C02_status_stale_counterexample.** `__str__` only looks at the `_pid_reused` flag and then reads
+    `/proc/pid/stat` of whoever holds the PID: for the stale handle of `witnessStaleStr` it shows the NEW
+    owner's status although the handle's own process is gone (is_running() on it is False).  The "only if"
+    half of the full statement is therefore false of the code as it is (the "if" half is
+    `C02_status_terminated_sound`). -/
+theorem C02_status_stale_counterexample : ¬ StatusTerminatedIffNotListed_Full cfg := by
+  intro H
+  have h0 : (run cfg (St.init 1000) witnessStaleStr).ps.objs[0]? = some ⟨8, 0 + cfg.clk * 1000, false, false, 0⟩ := by
+    decide
+  have := (H 1000 (by decide) witnessStaleStr (by decide) 0 _ h0).2
+    (by rw [← listedB_iff]; decide)
+  revert this; decide
+
 /-! ## Non-vacuity -/
 
 /-- lead L2 as a history: an object, a clock step of +10 s, `boot_time()`, a second object for the same
@@ -171,7 +276,29 @@ def witnessMixed : List Ev :=
   [.k (.spawn 8), .c (.newObj 8), .k (.setBtime 1010), .c .bootTime, .k (.reap 8), .k (.spawn 8),
    .c (.newObj 8), .k (.exit 8), .c (.newObj 8), .c (.isRunning 0), .k (.setBtime 7), .c .processIter]
 
-example : HistOK witnessL2 ∧ HistOK witnessMixed := by decide
+/-- seeded change C02-1 as a history: a stale handle 0 on PID 8, the PID is recycled, `process_iter()` hands
+    out handle 1 on the new owner, `is_running()` on the stale handle flags the reuse, `process_iter()`
+    evicts the cache entry (which belongs to the NEW owner) and skips the PID, a third sweep builds handle 2 -/
+def witnessIterReuse : List Ev :=
+  [.k (.spawn 8), .c (.newObj 8), .k (.reap 8), .k (.spawn 8), .c .processIter, .c (.isRunning 0),
+   .c .processIter, .c .processIter]
+
+example : HistOK witnessL2 ∧ HistOK witnessMixed ∧ HistOK witnessIterReuse := by decide
+
+/-- along `witnessIterReuse`: the first sweep yields the new handle (8, 1), the second sweep yields nothing
+    (entry evicted, PID skipped), the third yields a third handle (8, 2); handle 1 — evicted from the cache
+    while its process lives — is still running, equals handle 2, differs from the stale handle 0, which
+    is not running -/
+example :
+    (step cfg (run cfg (St.init 1000) (witnessIterReuse.take 4)) (.c .processIter)).2 = .procs [(8, 1)]
+    ∧ (step cfg (run cfg (St.init 1000) (witnessIterReuse.take 6)) (.c .processIter)).2 = .procs []
+    ∧ (step cfg (run cfg (St.init 1000) (witnessIterReuse.take 7)) (.c .processIter)).2 = .procs [(8, 2)]
+    ∧ (step cfg (run cfg (St.init 1000) witnessIterReuse) (.c (.isRunning 1))).2 = .bool true
+    ∧ (step cfg (run cfg (St.init 1000) witnessIterReuse) (.c (.isRunning 0))).2 = .bool false
+    ∧ (step cfg (run cfg (St.init 1000) witnessIterReuse) (.c (.eq 1 2))).2 = .bool true
+    ∧ (step cfg (run cfg (St.init 1000) witnessIterReuse) (.c (.eq 0 1))).2 = .bool false
+    ∧ (step cfg (run cfg (St.init 1000) witnessIterReuse) (.c (.status 0))).2 = .status .reusedTerminated
+    ∧ (step cfg (run cfg (St.init 1000) witnessIterReuse) (.c (.status 1))).2 = .status .alive := by decide
 
 /-- with the extracted configuration: the two objects of `witnessL2` are equal and both running; in
     `witnessMixed` object 0 (old incarnation) differs from 1 and 2, which are equal (zombie included),
